@@ -37,6 +37,7 @@ type summary struct {
 	Samples             []string
 	FailIdx             []int
 	CoqIds              []int // case ids in the Coq shards, in order
+	Unreadable          []int // accepted cases without planted text-level shape whose printed text the harness could not read back
 }
 
 type summariser struct {
@@ -68,6 +69,9 @@ func (z *summariser) add(i int, c *Case) {
 	s.Accepted++
 	if c.PrintedA == nil {
 		s.PrintedUnparsed++
+		if !c.TextRisk {
+			s.Unreadable = append(s.Unreadable, i)
+		}
 	}
 	kinds := map[string]bool{}
 	story := 0
